@@ -60,6 +60,7 @@ fn check(item: &(usize, usize, usize)) -> Report {
     let mut ecfg = ExploreCfg::new(Mode::O, 1);
     ecfg.prune = false; // relations of different consecutive pairs are independent: the solver filters below
     ecfg.max_paths = 400_000;
+    ecfg.max_seconds = 3600;
     let (paths, st) = explore(&ecfg, || class(&Array1::from(x.clone()).monotonic_prop()));
     if share == 0 {
         chk.add_explore_stats(paths.len(), &st);
